@@ -11,6 +11,13 @@
 (*         handleAccessSet).  SetLists is repeatable: the server lives     *)
 (*         through a history of installations.  The API refuses lists that *)
 (*         share an item, so SetLists is only enabled for disjoint lists.  *)
+(*         LoadConfig = the other way lists get installed: the server is   *)
+(*         created / reconfigured from a configuration (Prepare,           *)
+(*         Reconfigure) that carries the three lists.  An empty            *)
+(*         blocked-hosts list in a configuration stands for the documented *)
+(*         defaults (DefaultHosts); that effective list is what            *)
+(*         GET /control/access/list reports and what must be enforced.     *)
+(*         SetLists and LoadConfig alternate freely in a history.          *)
 (*   posted  history variable: every configuration posted so far, in       *)
 (*         order.  LastPostedRules says that what is in force is the       *)
 (*         configuration posted LAST, as posted -- re-posting the same     *)
@@ -77,7 +84,7 @@ ClientFamily ==
       Cidr("v6", <<0,1>>), Cidr("v6", <<>>), Cidr("v6", <<0,0,1,1>>),
       Id("c1"), Id("c2") }
 
-McFamily == { Ip("v4", <<0,1,0,1>>), Cidr("v6", <<0,1>>), Id("c1"), IdM("c1") }
+McFamily == { Ip("v4", <<0,1,0,1>>), Id("c1"), IdM("c1") }
 
 \* Names.  "xa" is a label that ends like "a" (look-alike: xa.com must not be
 \* caught by a pattern for a.com).
@@ -87,7 +94,9 @@ NameSeq ==
        <<"b","a","com">>, <<"a","a","com">>, <<"xa","a","com">>, <<"b","xa","com">>,
        <<"a","b","com">>, <<"b","b","a","com">>, <<"b","a","org">>,
        <<"com">>, <<"org">>, <<"a","com","org">>, <<"b","a","com","org">>,
-       <<"a","b","a","com","org">> >>
+       <<"a","b","a","com","org">>,
+       <<"version","bind">>, <<"b","version","bind">> >>
+
 
 \* Query types of the universes (order of the emitted table).
 QtypeSeq == <<"A", "AAAA", "TXT", "HTTPS", "MX">>
@@ -127,8 +136,8 @@ HostLists ==
 \* Requests of the "mc" universe: every transport, ClientID absent / present in
 \* both spellings (only where a transport can carry one), every presentation
 \* form of an address, names hit by each pattern kind and by none.
-McAddrForms == { <<AddrSeq[6],  "mapped">>, <<AddrSeq[22], "zoned">>, <<AddrSeq[25], "plain">> }
-McNames == {ACom, <<"b","a","com">>}
+McAddrForms == { <<AddrSeq[6],  "mapped">>, <<AddrSeq[22], "zoned">>, <<AddrSeq[3], "plain">> }
+McNames == {ACom, <<"b","a","com">>, <<"version","bind">>}
 McRequests ==
     { [addr |-> af[1], form |-> af[2], id |-> c, idcase |-> ic, name |-> n,
        spell |-> "plain", qtype |-> q, proto |-> p] :
@@ -139,6 +148,8 @@ Requests ==
                         /\ (r.id = NoId => r.idcase = "lower")
                         /\ (r.id # NoId => r.idcase = "mixed")
                         /\ (r.qtype = "AAAA" => r.name = ACom /\ r.form # "plain")
+                        /\ (r.name = <<"version","bind">> => r.qtype = "A" /\ r.id = NoId /\ r.form = "mapped")
+                        /\ (r.form = "plain" => r.name = ACom /\ r.id = NoId /\ r.qtype = "A")
                         /\ (r.id = "c2" => r.proto = "https" /\ r.qtype = "A")}
 
 \* ----------------------------------------------------------------- behaviour
@@ -164,9 +175,12 @@ HostTable(c) ==
 EmitUniverse ==
     PrintT(<<"@@V", ToJson([kind |-> "universe", addrs |-> AddrSeq, ids |-> IdSeq,
                             names |-> NameSeq, qtypes |-> QtypeSeq])>>)
-EmitCfg(c) ==
-    PrintT(<<"@@V", ToJson([kind |-> "cfg", allowed |-> c.allowed,
+\* via = entry point, given = the blocked-hosts list as passed to it, hosts =
+\* the effective one (reported by the API, enforced).
+EmitCfg(c, via, given) ==
+    PrintT(<<"@@V", ToJson([kind |-> "cfg", via |-> via, allowed |-> c.allowed,
                             disallowed |-> c.disallowed, hosts |-> c.hosts,
+                            given |-> given,
                             ex |-> ExTable(c), hv |-> HostTable(c)])>>)
 
 \* plan is not part of the modelled system.  All successors of one state are
@@ -203,7 +217,26 @@ SetLists(A, D, H) ==
     /\ last' = NoLast
     /\ nset' = nset + 1
     /\ UNCHANGED <<obs, nreq, plan>>
-    /\ (Emitting => EmitCfg(cfg'))
+    /\ (Emitting => EmitCfg(cfg', "set", H))
+
+\* The server is created or reconfigured from a configuration carrying the
+\* lists.  Same obligations as SetLists; the only difference is that an empty
+\* blocked-hosts list means the defaults.  (The configuration file is not
+\* validated for shared items; the universes keep the lists disjoint.)  In
+\* the "clients" universe only SetLists is enumerated: there H is never empty
+\* and LoadConfig(A, D, H) has, by definition, the very same successor.
+LoadConfig(A, D, H) ==
+    /\ Universe # "clients"
+    /\ nset < MaxSet
+    /\ (nset > 0 => (nreq > 0 /\ nreq < MaxReq))
+    /\ A \cap D = {}
+    /\ (plan.on => A = plan.a)
+    /\ cfg' = [allowed |-> A, disallowed |-> D, hosts |-> EffectiveHosts(H)]
+    /\ posted' = Append(posted, cfg')
+    /\ last' = NoLast
+    /\ nset' = nset + 1
+    /\ UNCHANGED <<obs, nreq, plan>>
+    /\ (Emitting => EmitCfg(cfg', "load", H))
 
 \* One DNS request r with outcome o.
 Request(r, o) ==
@@ -216,6 +249,7 @@ Request(r, o) ==
     /\ UNCHANGED <<cfg, nset, posted, plan>>
 
 Next == \/ \E p \in ListPairs, H \in HostLists : SetLists(p[1], p[2], H)
+        \/ \E p \in ListPairs, H \in HostLists : LoadConfig(p[1], p[2], H)
         \/ \E r \in Requests : \E o \in Outcomes(cfg, r) : Request(r, o)
 
 Spec == Init /\ [][Next]_vars
@@ -229,6 +263,12 @@ LastPostedRules ==
     /\ Len(posted) = nset
     /\ (nset > 0 => cfg = posted[Len(posted)])
     /\ (HasLast => last.out \in Outcomes(posted[Len(posted)], last.req))
+
+\* A configuration never leaves the server without blocked hosts; loaded with
+\* a non-empty list it is what SetLists would have installed.
+LoadedDefaults ==
+    /\ EffectiveHosts({}) = DefaultHosts
+    /\ \A H \in HostLists : H # {} => EffectiveHosts(H) = H
 
 \* "... is never resolved, filtered, logged or counted: over UDP and DNSCrypt
 \*  it gets no reply at all, over every other transport only REFUSED."
